@@ -182,6 +182,10 @@ impl<'a> G<'a> {
             .collect();
         HandlerSpec { fx }
     }
+    /// constructor variant: mostly the plain one
+    fn via(&mut self, n: usize) -> u8 {
+        if self.r.chance(1, 4) { self.r.below(n) as u8 } else { 0 }
+    }
     fn body_expr(&mut self, depth: u32, bind_depth: u32) -> BodyExpr {
         let leaf = depth >= 3;
         let w_memo = if self.nmemo > 0 { 2 } else { 0 };
@@ -190,7 +194,14 @@ impl<'a> G<'a> {
         match k {
             0 => BodyExpr::Outer(self.r.below(4)),
             1 => BodyExpr::Const(self.val()),
-            2 => BodyExpr::Map(Box::new(self.body_expr(depth + 1, bind_depth)), self.f2()),
+            2 => {
+                let inner = Box::new(self.body_expr(depth + 1, bind_depth));
+                let f = self.f2();
+                match self.via(4) {
+                    0 => BodyExpr::Map(inner, f),
+                    v => BodyExpr::MapVia(inner, f, v - 1),
+                }
+            }
             3 => BodyExpr::Map2(Box::new(self.body_expr(depth + 1, bind_depth)), Box::new(self.body_expr(depth + 1, bind_depth)), self.f2()),
             4 => BodyExpr::NewVar { v: self.val(), top: self.r.chance(1, 3) },
             5 => {
@@ -209,6 +220,9 @@ impl<'a> G<'a> {
         let outers = (0..nout)
             .map(|_| {
                 let i = self.idx();
+                if self.p.export_pct > 0 && self.r.chance(1, 10) {
+                    return OuterSel::Invalid(i);
+                }
                 if self.p.sibling_bias {
                     match self.r.below(4) {
                         0 => OuterSel::Any(i),
@@ -232,7 +246,8 @@ impl<'a> G<'a> {
         } else {
             None
         };
-        BodySpec { alts, outers, export, temp: self.r.chance(self.p.temp_pct, 100), side, fx }
+        let via = if self.r.chance(1, 5) { 1 } else { 0 };
+        BodySpec { alts, outers, export, temp: self.r.chance(self.p.temp_pct, 100), side, via, fx }
     }
     fn cutoff(&mut self) -> CutoffSpec {
         if self.p.noneq_cutoffs {
@@ -274,7 +289,7 @@ impl<'a> G<'a> {
                     self.chain_stage = 0;
                     self.pending_chain = 0;
                     self.ni += 1;
-                    Action::NewMap { src: usize::MAX, f: self.f1(), fx: vec![] }
+                    Action::NewMap { src: usize::MAX, f: self.f1(), fx: vec![], via: 0 }
                 }
             };
         }
@@ -304,7 +319,7 @@ impl<'a> G<'a> {
             }
             3 => {
                 self.ni += 1;
-                Action::NewMap { src: self.idx(), f: self.f1(), fx: self.node_fx() }
+                Action::NewMap { src: self.idx(), f: self.f1(), fx: self.node_fx(), via: self.via(4) }
             }
             4 => {
                 self.ni += 1;
@@ -384,6 +399,7 @@ fn skeleton_reconnect(g: &mut G, actions: &mut Vec<Action>) {
             outers: vec![OuterSel::Any(g.idx())],
             export: false,
             temp: false,
+            via: 0,
             side: None,
             fx: vec![],
         };
@@ -405,6 +421,7 @@ fn skeleton_reconnect(g: &mut G, actions: &mut Vec<Action>) {
         outers: vec![if g.r.chance(1, 2) { OuterSel::Any(g.idx()) } else { OuterSel::Sibling(g.idx()) }],
         export: true,
         temp: g.r.chance(1, 3),
+        via: 0,
         side: None,
         fx: vec![],
     };
